@@ -426,7 +426,8 @@ static int c07_main(int argc,char **argv){
     }else if(!strcmp(op,"link")&&n>=9){
       mk_params P; int rc; memset(&P,0,sizeof P);
       P.channels=atoi(tok[1]); P.rate=atol(tok[2]); P.quality=atof(tok[3]); P.n=atol(tok[4]); P.sig=atoi(tok[5]); P.seed=atol(tok[6]); P.pagemode=atoi(tok[7]); P.fill=atoi(tok[8]);
-      P.serial=1000+P.seed%100000; P.chunk=3000;
+      P.serial=(P.seed%5==3)?(int)(0x80000000u+(unsigned)P.seed):(int)(1000+P.seed%100000); /* one link in five has the top bit of its serial number set */
+      P.chunk=3000;
       if(c7_nlinks<64)c7_linkoff[c7_nlinks]=c7_phys.n;
       rc=mk_encode(&P,&c7_phys);
       if(c7_nlinks<64){ c7_nlinks++; c7_linkoff[c7_nlinks]=c7_phys.n; }
